@@ -338,7 +338,7 @@ func NewShortestPathSearchFromPoint(from b6.FeatureID, weights Weights, w b6.Wor
 	rs := w.FindReferences(from)
 	for rs.Next() {
 		f := w.FindFeatureByID(rs.FeatureID())
-		if p, ok := f.(b6.PhysicalFeature); ok && weights.IsUseable(b6.Segment{Feature: p}) {
+		if p, ok := f.(b6.PhysicalFeature); ok && weights.IsUseable(b6.ToSegment(p)) {
 			connected = true
 			break
 		}
